@@ -233,6 +233,10 @@ def _draw_household(draw, b: _Builder, arch: str, max_children: int):
 
     elif arch == "single_parent":
         pa = _adult_age(draw, 18, 60)
+        # sometimes all children of the family come from one age band (rules count children "up to 6",
+        # "up to 15", "under 18": a family with many children and none in a band is otherwise rare)
+        klo, khi = draw(st.sampled_from([(0, 24), (0, 24), (0, 24), (0, 6), (7, 15), (7, 17), (16, 24)]))
+        pa = max(pa, klo + 18)
         p = b.add(hh, pa, weiblich=draw(st.booleans()), alleinerz=True)
         other = -1
         where = draw(st.sampled_from(["unknown", "other_hh", "other_hh_kg"]))
@@ -242,7 +246,7 @@ def _draw_household(draw, b: _Builder, arch: str, max_children: int):
             other = b.add(hh2, _adult_age(draw, max(18, pa - 10), 70), weiblich=not b.rows[p]["weiblich"])
             b.tags.add("cross_hh_parent")
         for _ in range(draw(nkids)):
-            c = b.add(hh, _child_age(draw, pa, 0, 24), weiblich=draw(st.booleans()))
+            c = b.add(hh, _child_age(draw, pa, klo, khi), weiblich=draw(st.booleans()))
             if other >= 0 and b.rows[other]["alter"] - b.rows[c]["alter"] < 14:
                 b.rows[c]["alter"] = max(0, b.rows[other]["alter"] - 14)
             b.child_of(c, p, other)
@@ -251,13 +255,14 @@ def _draw_household(draw, b: _Builder, arch: str, max_children: int):
 
     elif arch == "couple_kids":
         married = draw(st.booleans())
-        pa = _adult_age(draw, 20, 60)
+        klo, khi = draw(st.sampled_from([(0, 24), (0, 24), (0, 24), (0, 6), (7, 15), (7, 17), (16, 24)]))
+        pa = max(_adult_age(draw, 20, 60), klo + 18)
         a = b.add(hh, pa, weiblich=True)
-        c = b.add(hh, _adult_age(draw, 20, 68), weiblich=False)
+        c = b.add(hh, max(_adult_age(draw, 20, 68), klo + 18), weiblich=False)
         b.couple(a, c, married, joint=draw(st.booleans()))
         youngest = min(pa, b.rows[c]["alter"])
         for _ in range(draw(nkids)):
-            k = b.add(hh, _child_age(draw, youngest, 0, 24), weiblich=draw(st.booleans()))
+            k = b.add(hh, _child_age(draw, youngest, klo, khi), weiblich=draw(st.booleans()))
             b.child_of(k, a, c, kg=draw(st.sampled_from([a, c])))
 
     elif arch == "patchwork":
